@@ -133,7 +133,7 @@ def lane(li, n, limit):
             else:
                 rec["status"] = "survives-baseline"
                 sh(f"mkdir -p {vdir} && rsync -a --delete --exclude target --exclude .work --exclude replays --exclude .git --exclude evidence --exclude mutants --exclude seeded /verif/ {vdir}/ && "
-                   f"sed -i 's#path = \"/repo\"#path = \"{wt}\"#' {vdir}/harness/Cargo.toml {vdir}/sched/Cargo.toml")
+                   f"sed -i 's#path = \"/repo\"#path = \"{wt}\"#' {vdir}/harness/Cargo.toml {vdir}/sched/Cargo.toml {vdir}/alias/Cargo.toml")
                 rec["checks"] = {}
                 for chk in FILES[f]:
                     t0 = time.time()
@@ -180,7 +180,7 @@ def recheck():
             lines[rec["line"] - 1] = (ind + rec["new"]) if rec["new"] else ""
             open(fp, "w").write("\n".join(lines))
             sh(f"mkdir -p {vdir} && rsync -a --delete --exclude target --exclude .work --exclude replays --exclude .git --exclude evidence --exclude mutants --exclude seeded --exclude refactorings /verif/ {vdir}/ && "
-               f"sed -i 's#path = \"/repo\"#path = \"{wt}\"#' {vdir}/harness/Cargo.toml {vdir}/sched/Cargo.toml")
+               f"sed -i 's#path = \"/repo\"#path = \"{wt}\"#' {vdir}/harness/Cargo.toml {vdir}/sched/Cargo.toml {vdir}/alias/Cargo.toml")
             for chk in need:
                 t0 = time.time()
                 c, o = sh(f"./check {chk} --tier quick 2>&1 | tail -6", cwd=vdir, timeout=2400)
